@@ -74,4 +74,5 @@ c102342 C03
 076191e C01
 e78a7a8 C08
 1be5d5d C08
+cf8d1d2 C01
 LIST
